@@ -2,6 +2,7 @@ import LyModel.XsdRe.Parse
 import LyModel.XsdRe.ToPcre
 import LyModel.XsdRe.Rewrite
 import LyModel.XsdRe.Sem
+import LyModel.XsdRe.RewriteSub
 /-! driver ops of component `xsdre` (C18) -/
 namespace LyModel.XsdRe.Drv
 open LyModel LyModel.XsdRe
@@ -60,6 +61,11 @@ def patConstructs : Pat → List String
 
 def b01 (b : Bool) : String := if b then "1" else "0"
 
+/-- the rewrite of the source as it is now: the escape table and the subtraction switch are extracted -/
+def rewriteSrc (fx : Fixes) (p : Bytes) : Except RwErr Bytes :=
+  if Generated.UBlocks.subtraction then rewriteWithS Generated.UBlocks.mceTable fx p
+  else rewriteWithM Generated.UBlocks.mceTable fx p
+
 def handle (op : String) (args : List String) : String :=
   match op, args with
   | "match", [ph, sh, inv] =>
@@ -98,7 +104,7 @@ def handle (op : String) (args : List String) : String :=
   | "rewrite", [fl, ph] =>
     match Hex.dec ph with
     | some p =>
-      match rewriteWithM Generated.UBlocks.mceTable (parseFlags fl) p with
+      match rewriteSrc (parseFlags fl) p with
       | .ok t => "ok " ++ Hex.enc t
       | .error e => "err " ++ e.name
     | none => "err BadHex"
@@ -119,12 +125,13 @@ def handle (op : String) (args : List String) : String :=
         let txt := renderXsd pat
         let back := match parseChars txt with | .ok q => q == pat | .error _ => false
         let frag := inFragment pat
-        let sem := match rewriteWithM Generated.UBlocks.mceTable Fixes.all (utf8 txt) with
+        let sem := match rewriteSrc Fixes.all (utf8 txt) with
           | .ok t => t == utf8 (pat.render .pcre) && (match parseCharsD .pcre (pat.render .pcre) with | .ok q => q == pat | .error _ => false)
           | .error _ => false
         "ok " ++ Hex.enc (utf8 txt) ++ " " ++ b01 back ++ " " ++ b01 pat.Canon ++ " " ++ b01 frag ++ " " ++ b01 sem ++ " " ++
           Hex.enc (utf8 (pat.render .pcre)) ++ " " ++ ";".intercalate (patConstructs pat).eraseDups
     | none => "err BadHex"
+  | "subtraction", _ => "ok " ++ b01 Generated.UBlocks.subtraction
   | "mce", _ => "ok " ++ (if Generated.UBlocks.mceTable.isEmpty then "-" else
       String.ofList (Generated.UBlocks.mceTable.map fun e => Char.ofNat e.1.toNat))
   | "opts", _ => "ok " ++ ",".intercalate (Generated.UBlocks.compileOpts.toArray.qsort (· < ·)).toList
